@@ -369,6 +369,13 @@ func (g *getterInliner) list(list []ast.Stmt) ([]ast.Stmt, bool) {
 		changed = changed || ch
 	}
 	if !changed {
+		out = list
+	}
+	// a value built field by field, shown as the literal it stands for (see foldFieldwise)
+	if folded, fch := foldFieldwise(g.info, out); fch {
+		return folded, true
+	}
+	if !changed {
 		return list, false
 	}
 	return out, true
